@@ -52,3 +52,30 @@ void h_rsub_none_keep_rt(void){ DECL; int keep = IN_KEEP(); CHECK(k_rsub_none_ke
   ASSERT(r == 1 && od == 3, "accumulate keeps the source dim"); for (int k = 0; k < 3; k++) ASSERT(os[k] == shape[k], "accumulate keeps the source shape"); \
   ASSERT(out == ref_accum(shape, data, an, idx, OP), "element == running left fold along the axis up to and including the index"); OBS(out); } while (0)
 void h_asub_axis(void){ DECL; i32 ax = IN_AXIS(); u64 an = norm(ax, 3); KF_ACC(ax); ACC(k_asub_axis(shape, data, (u32)ax, ARGS), 0); REACHED(); }
+
+/* explicit axes covering every dimension: the result is a number (dim 0) evaluated by reduce_t::operator num_type; initial must start the fold */
+void h_rsub_axes3(void){ DECL; u32 axes[3]; i32 a0 = IN_AXIS(), a1 = IN_AXIS1(), a2 = IN_AXIS2(); axes[0] = (u32)a0; axes[1] = (u32)a1; axes[2] = (u32)a2;
+  ASSUME(norm(a0, 3) != norm(a1, 3) && norm(a0, 3) != norm(a2, 3) && norm(a1, 3) != norm(a2, 3));
+  CHECK(k_rsub_axes3(shape, data, axes, ARGS), 7u, 0, 0, 0, 0); REACHED(); }
+void h_rsub_axes3_init(void){ DECL; u32 axes[3]; i32 a0 = IN_AXIS(), a1 = IN_AXIS1(), a2 = IN_AXIS2(); axes[0] = (u32)a0; axes[1] = (u32)a1; axes[2] = (u32)a2; u32 init = in_any32();
+  ASSUME(norm(a0, 3) != norm(a1, 3) && norm(a0, 3) != norm(a2, 3) && norm(a1, 3) != norm(a2, 3));
+  CHECK(k_rsub_axes3_init(shape, data, axes, init, ARGS), 7u, 0, 0, 1, init); REACHED(); }
+/* result dtype. Widening (uint8 elements, dtype uint32): the reference folds the 8-bit values in 32 bits (sums above 255 must survive).
+ * Narrowing (uint32 elements, dtype uint8): NumPy casts the operands to the dtype and folds in it == the 32-bit fold reduced mod 256. */
+#define DECLB u64 shape[3], idx[4], os[4] = {0}, od = 77, ex[4]; u8 data8[CELLS] = {0}; u32 data[CELLS] = {0}, out = 0; in_shape3(shape); \
+  for (int i_ = 0; i_ < MAXE*MAXE*MAXE; i_++){ data8[i_] = in_any8(); data[i_] = data8[i_]; }
+void h_radd_axis_dtype(void){ DECLB; i32 ax = IN_AXIS(); u32 m = 1u << norm(ax, 3);
+  CHECK(k_radd_axis_dtype(shape, data8, (u32)ax, ARGS), m, 0, 1, 0, 0); REACHED(); }
+void h_radd_axis_dtype_init(void){ DECLB; i32 ax = IN_AXIS(); u32 m = 1u << norm(ax, 3); u32 init = in_any32();
+  CHECK(k_radd_axis_dtype_init(shape, data8, (u32)ax, init, ARGS), m, 0, 1, 1, init); REACHED(); }
+void h_radd_none_dtype(void){ DECLB; CHECK(k_radd_none_dtype(shape, data8, ARGS), 7u, 0, 1, 0, 0); REACHED(); }
+void h_aadd_axis_dtype(void){ DECLB; i32 ax = IN_AXIS(); u64 an = norm(ax, 3); ACC(k_aadd_axis_dtype(shape, data8, (u32)ax, ARGS), 1); REACHED(); }
+#define ARGS8 idx, nd, os, &od, &out8
+void h_radd_axis_dtype8(void){ DECL; u8 out8 = 0; i32 ax = IN_AXIS(); u32 m = 1u << norm(ax, 3);
+  u64 nd = ref_shape(shape, m, 0, ex); in_index(idx, ex, nd); int r = k_radd_axis_dtype8(shape, data, (u32)ax, ARGS8);
+  ASSERT(r == 1 && od == nd, "reduction accepted, result dim == NumPy"); for (u64 k = 0; k < 4; k++) if (k < nd) ASSERT(os[k] == ex[k], "result shape == NumPy");
+  ASSERT(out8 == (u8)ref_fold(shape, data, m, 0, idx, 1, 0, 0), "element == fold in the requested 8-bit dtype"); OBS(out8); REACHED(); }
+void h_aadd_axis_dtype8(void){ DECL; u8 out8 = 0; i32 ax = IN_AXIS(); u64 an = norm(ax, 3);
+  for (int k = 0; k < 4; k++) ex[k] = k < 3 ? shape[k] : 0; in_index(idx, ex, 3); u64 nd = 3; int r = k_aadd_axis_dtype8(shape, data, (u32)ax, ARGS8);
+  ASSERT(r == 1 && od == 3, "accumulate keeps the source dim"); for (int k = 0; k < 3; k++) ASSERT(os[k] == shape[k], "accumulate keeps the source shape");
+  ASSERT(out8 == (u8)ref_accum(shape, data, an, idx, 1), "element == running fold in the requested 8-bit dtype"); OBS(out8); REACHED(); }
